@@ -461,6 +461,47 @@ Proof.
   apply filter_In. split; [exact Hconn|]. apply negb_true_iff. by apply mem_false.
 Qed.
 
+(* The map's choice falls on the honest peer (one connected peer serves the
+   complete true list; others may serve correct but shorter ones, or empty
+   ones): a round that finds the filter tip a whole interval behind commits. *)
+Lemma round_commits_choice s d s' asked bans :
+  linv s -> hon_round H fh p c tfilt s d -> eff_phase s <> PTip ->
+  round H c s d = (s', (3, asked, bans)) -> l_flag s' = 0 ->
+  flen2 (l_a s) + INTERVAL <= tipH s -> d_hint d = p ->
+  (exists ar, In ar (d_ars d) /\ a_peer ar = p /\ a_q ar = 0) ->
+  flen2 (l_a s) < flen2 (l_a s').
+Proof.
+  intros Hinv Hhon Hph Hr Hflag Hlag Hhint Har.
+  pose proof Hhon as (Hconn & Hcp & Hhd & _ & Hhard).
+  pose proof Hinv as [[Hnd Hlen] Hpar Hhead Htrue Hgen Hnb Hcb Hcache Hleg Hcpn Hphase].
+  assert (Hf0 : 0 <= flen2 (l_a s)).
+  { destruct Htrue as [[H1 _] _]. unfold flen2, zlen. lia. }
+  assert (Ht : INTERVAL <= tipH s) by lia.
+  apply (round_commits s d s' asked bans Hinv Hhon Hph Hr Hflag Ht); [|exact Har].
+  intros x l Hres.
+  (* the flag is clear, so the lists are those of the present chain *)
+  assert (Hfresh : fst (lists_of c s (tipH s) (tipX s) d) = true \/ l_cache_bl s = abl (l_a s)).
+  { revert Hr. unfold round. destruct (l_panic s); [discriminate|].
+    change (match l_ph s with PDecide => decide_ph s | ph => ph end) with (eff_phase s).
+    intros Hr.
+    assert (Hw : wait_round H c s d = (s', (3, asked, bans))).
+    { destruct (eff_phase s) as [|lh lx| |] eqn:Eph; try done.
+      by destruct (eff_phase_retry H fh parent g p c s lh lx Hinv). }
+    unfold wait_round in Hw. destruct (negb (wait_cond s)); [discriminate|].
+    change (hlen (l_a s)) with (tipH s) in Hw. replace (tipH s <? INTERVAL) with false in Hw by lia.
+    unfold attempt in Hw. change (default 0 (last (abl (l_a s)))) with (tipX s) in *.
+    pose proof (attempt_with_flag H c _ _ _ _ _ _ _ _ _ _ _ Hw) as Hfl. rewrite Hflag in Hfl. symmetry in Hfl.
+    exact (stale_flag_zero c _ _ _ Hcpn Hfl). }
+  pose proof (lists_iff H fh parent g p c s d Hinv Hcp Ht Hfresh) as Hiff.
+  destruct (resolve_of H c s (tipH s) (tipX s) d) as [bans0 res] eqn:ER. cbn [snd] in Hres. subst res.
+  rewrite (resolve_choice H fh parent g p c tfilt s d _ bans0 (x :: l) Hinv Hhd Hhard Hph Ht eq_refl Hiff ER Hhint).
+  rewrite tcps_length by (unfold tipH, hlen in *; lia). unfold INTERVAL in *.
+  assert (flen2 (l_a s) / 1000 + 1 <= tipH s / 1000).
+  { replace (flen2 (l_a s) / 1000 + 1) with ((flen2 (l_a s) + 1 * 1000) / 1000) by (rewrite Z.div_add by lia; lia).
+    apply Z.div_le_mono; lia. }
+  lia.
+Qed.
+
 End G2.
 
 (* ---------- round-level progress ---------- *)
